@@ -328,6 +328,13 @@ func (m *voteextMonitor) After(c *Chain, w *World, br *BlockResult, outs []TxOut
 	var exts []parsed
 	for _, cv := range m.commit {
 		if cv.Flag != cmtproto.BlockIDFlagCommit {
+			var e layerapp.BridgeVoteExtension
+			if cv.Flag == cmtproto.BlockIDFlagNil && len(cv.Ext) > 0 && json.Unmarshal(cv.Ext, &e) == nil {
+				m.kindsSeen["nil-vote-with-data"] = true
+				if _, registered := b.evm[cv.Val.ValAddr.String()]; !registered && len(e.InitialSignature.SignatureA) > 0 {
+					m.kindsSeen["nil-vote-with-initial-signatures-of-unregistered-validator"] = true
+				}
+			}
 			continue
 		}
 		var e layerapp.BridgeVoteExtension
@@ -388,7 +395,13 @@ func (m *voteextMonitor) After(c *Chain, w *World, br *BlockResult, outs []TxOut
 			kinds += k
 		}
 	}
-	if carrying >= 2 && len(m.kindsSeen) >= 2 {
+	dataKinds := 0
+	for _, k := range []string{"initial", "valset", "attestation"} {
+		if m.kindsSeen[k] {
+			dataKinds++
+		}
+	}
+	if carrying >= 2 && dataKinds >= 2 {
 		m.richCommits++
 	}
 	// (3a) EVM address map: existing untouched, new entries exactly the expected ones
@@ -503,9 +516,10 @@ func voteextProfile() *Profile {
 	// lateMut[v] (hostile / replayed / mixed / honest initial signatures). Shared between the two
 	// generator hooks of one case (rapid draws a case sequentially).
 	var lateAt, lateMut, lateArg map[int]int
+	var lateNil map[int]bool // the late validator's first appearance is a nil precommit that carries its (unsigned) extension
 	p.Genesis = func(t *rapid.T) GenesisCfg {
 		cfg := GenGenesis(t)
-		lateAt, lateMut, lateArg = map[int]int{}, map[int]int{}, map[int]int{}
+		lateAt, lateMut, lateArg, lateNil = map[int]int{}, map[int]int{}, map[int]int{}, map[int]bool{}
 		var boot []VoteSpec
 		for v := 1; v < cfg.NumValidators; v++ { // validator 0 always registers (a chain without any registered validator halts at height 2)
 			if uni(t, "late", 3) == 0 {
@@ -513,6 +527,7 @@ func voteextProfile() *Profile {
 				lateAt[v] = uni(t, "lateAt", 10)
 				lateMut[v] = []int{0, 1, 2, 2, 3, 4, 15, 15}[uni(t, "lateMut", 8)]
 				lateArg[v] = uni(t, "lateArg", 64)
+				lateNil[v] = uni(t, "lateNil", 3) == 0
 			}
 		}
 		cfg.BootVotes = [][]VoteSpec{boot, boot}
@@ -533,7 +548,11 @@ func voteextProfile() *Profile {
 			if blockIdx < at {
 				out = append(out, VoteSpec{Val: v, Mode: 1})
 				used[v] = true
-			} else if blockIdx == at {
+			} else if blockIdx == at && lateNil[v] {
+				// initial signatures on a nil precommit: nobody verified these bytes, they must not register anything
+				out = append(out, VoteSpec{Val: v, Mode: 6, Mut: 15, Arg: lateArg[v]})
+				used[v] = true
+			} else if blockIdx == at || (blockIdx == at+1 && lateNil[v]) {
 				out = append(out, VoteSpec{Val: v, Mode: 5, Mut: lateMut[v], Arg: lateArg[v]})
 				used[v] = true
 			}
